@@ -347,6 +347,7 @@ pub fn case_solve(ctx: &mut Ctx, case: &Value) {
         .map(|a| a.iter().filter_map(|x| x.as_str().map(|s| s.to_string())).collect())
         .unwrap_or_default();
     let has = |a: &str| asserts.iter().any(|x| x == a);
+    ctx.record_current(case);
     let g = match build(&t) {
         Ok(g) => g,
         Err(e) => return ctx.fail_corr(case, format!("tree rejected: {:?}", e)),
@@ -1189,6 +1190,7 @@ pub fn case_meta(ctx: &mut Ctx, case: &Value) {
     let c = fparse(&case["c"]).unwrap_or(2.0);
     let cfg = Cfg::from_json(&case["cfg"]);
     let prof = case_prof(case, "prof");
+    ctx.record_current(case);
     let mut rng = Rng::new(case["rseed"].as_u64().unwrap_or(0));
     let (mi, ma, mc) = (rename_map(&mut rng), rename_map(&mut rng), rename_map(&mut rng));
     let t2 = match what {
